@@ -100,3 +100,25 @@ package fmtp
 //@ props C17
 //@ requires a != nil
 //@ ensures result
+
+// ---- the same two clauses over Parse (the entry point the callers use)
+// Assumed of parseParameters (string splitting over a range-over-func iterator, outside the
+// verifier's subset): it returns a new map whose content is a function of the line.
+//@ func parseParameters
+//@ trusted
+//@ props C17
+//@ ensures result != nil && fresh(result)
+//@ ensures forall k string :: indom(result, k) == ufbool("pkey", line, k)
+//@ ensures forall k string :: indom(result, k) ==> result[k] == ufstr("pval", line, k)
+//@ modifies nothing
+//@ func Parse
+//@ inline
+
+//@ func specParseSym
+//@ props C17
+//@ ensures ret0 == ret1
+
+//@ func specParseCase
+//@ props C17
+//@ requires strings.EqualFold(m1, m1b)
+//@ ensures ret0 == ret1 && ret2 == ret3
